@@ -127,6 +127,9 @@ class StatePreparationChannel(raw_types.Gate):
             return False
         return np.array_equal(self.state, other.state)
 
+    def __hash__(self) -> int:
+        return hash((StatePreparationChannel, tuple(self.state.tolist())))
+
     @property
     def state(self) -> np.ndarray:
         return self._state
